@@ -127,6 +127,16 @@ func runJob(run *ev.Run, j job) {
 	var probs []string
 	namedFlush := false
 	step := func(s gen.OpSpec) bool {
+		if j.via > 0 && r.Intn(6) == 0 {
+			// the primary raises its own election id between two operations: it stays the
+			// primary, and what is held for it stays held
+			probs = append(probs, x.Reannounce()...)
+			probs = append(probs, x.Compare()...)
+			run.Count("primary_raised_its_own_election_id", 1)
+			if len(x.M.Held) > 0 {
+				run.Count("primary_raised_its_own_election_id_while_operations_were_held", 1)
+			}
+		}
 		res, p := x.Do(s)
 		probs = append(probs, p...)
 		probs = append(probs, x.Compare()...)
